@@ -153,6 +153,7 @@ func c09Replay(e *core.Env, data json.RawMessage) (bool, string) {
 func init() {
 	core.Register(&core.Check{
 		ID: "C09", Level: "model_checking", Run: c09Run, Replay: c09Replay,
+		Added:       "same-day inverse quotes with a spread; race detector on every pipeline scenario (incl. print of unsorted days)",
 		QuickBudget: 100 * time.Second, ThoroughBudget: 14 * time.Minute,
 		Rule: "every accepted journal of <= N body directives over {12 transaction templates incl. trailing zeros, negative, zero, 8-decimal and large amounts, Unicode, multi-line description, @performance, accrual; one-, two-line and multi-line-form assertions; prices with trailing zeros; close; open of a Unicode account} x dates; " +
 			"print -> check, print(print)=print byte for byte, 6 balance flag sets equal on original and printed journal; non-trivial = two or more body directives",
